@@ -288,20 +288,8 @@ def run(ctx):
         raise tlc.TLCFailure("Defs.tla with MAINTAIN=FALSE should violate WellNested/ExpandAll")
     ctx.note("unmaintained_flags_rejected_by_spec", r.violated)
     import os
-    gen = "MC_Defs_gen.cfg"
-    made = None
-    if not quick:
-        with open(os.path.join(tlc.SPECS, gen)) as f:
-            txt = f.read().replace("MaxObjs = 2", "MaxObjs = 3").replace("MaxOps = 4", "MaxOps = 5")
-        made = os.path.join(tlc.SPECS, "MC_Defs_gen5.cfg")
-        with open(made, "w") as f:
-            f.write(txt)
-        gen = "MC_Defs_gen5.cfg"
-    try:
-        r = ctx.tlc("MC_Defs", gen, workers=1, label="behaviour + table generation", timeout=1800)
-    finally:
-        if made:
-            os.remove(made)
+    gen = "MC_Defs_gen.cfg" if quick else ctx.cfg("MC_Defs_gen.cfg", ("MaxObjs = 2", "MaxObjs = 3"), ("MaxOps = 4", "MaxOps = 5"))
+    r = ctx.tlc("MC_Defs", gen, workers=1, label="behaviour + table generation", timeout=1800)
     tables = [j for j in r.json_lines if "shapes" in j][0]
     behs = [j for j in r.json_lines if "ops" in j and j["ops"]]
     ctx.exhaustive = True
